@@ -2,7 +2,7 @@
 
 from __future__ import annotations
 
-from asyncio import ensure_future, gather
+from asyncio import Future, ensure_future, gather
 from contextlib import suppress
 from copy import copy
 from typing import TYPE_CHECKING, Any, NamedTuple, cast
@@ -759,6 +759,8 @@ class IncrementalExecutor(Executor[DeliveryGroupMap]):
         """Complete a stream item on this sub-executor."""
         is_awaitable = self.is_awaitable
         if is_awaitable(item):
+            if isinstance(item, Future):
+                self.track_running_future(item)
 
             async def await_stream_item_result() -> WorkResult:
                 try:
